@@ -1,25 +1,43 @@
-import JunoModel.C09.ProofsIndex
+import JunoModel.C09.ProofsHist
 import JunoModel.C09.ProofsSpec
 import JunoModel.C09.ProofsPre
 import JunoModel.C09.ProofsSound
 /-!
-C09 — property theorems (statements only; helper lemmas are in `Proofs*.lean`).
+C09 — property theorems about the code in /repo (statements only; lemmas and plumbing are in
+`Proofs*.lean`; theorems about the code BEFORE the round-1 repairs are in `Regression.lean`).
 
 Reading guide. `Node` is the event index of a juno node next to its canonical chain; `run cfg
-Node.init ops` is the node after a history of store / revert / snapshot write / restart / query.
-`cfg.W` is the window size (8192 in the code), `cfg.cap` the LRU capacity (16), and the three
-`fix…` flags say which of the repairs in proposed-fixes/C09-*.diff are in the tree (all `false` for
-the pinned commit). `naive f chain lo hi` is the specification of a query: scan every block.
-`collect … fuel n none` follows continuation tokens from the first page to the empty token.
+Node.init ops` is the node after a history of store / revert / snapshot write / restart / query /
+prune and of the faults: a Store or RevertHead whose commit fails, a restart whose lazy
+initialisation hits a transient error, a restart that dies inside the initialiser. `cfg.W` is the
+window size (8192 in the code), `cfg.cap` the LRU capacity (16); `Repaired cfg` = the three round-1
+repairs are in (they are: the harness probes the real code every run). `naive f chain lo hi` is the
+specification of a query: scan every block. `collect … fuel n none` follows continuation tokens from
+the first page to the empty token.
+
+Clauses of the property text and where they are: "precisely the matching events … in chain order …
+tagged with block, transaction and position" — `naive_spec`, `naive_in_chain_order`, `events_exact`
+(positions; the block HASH and transaction HASH tags are checked by the harness only, `checkTag`);
+"plus pre-confirmed blocks when asked" — `paging_complete_preconfirmed`, `events_exact_preconfirmed`,
+`preconfirmed_ignored_below_head`; "same list for every chunk size and scan limit" — ∀ chunk ≥ 1,
+limit in `events_exact` (chunk ≥ 1 is what `validate:"min=1"` guarantees at the RPC boundary; the
+harness sends requests through the real jsonrpc server and validator); "not omitted because of the
+bloom index, its cache, restarts, reorgs" — `index_no_false_neg` (bloom filters themselves: superset
+ASSUMPTION in `StoresOK`); crash points — `index_no_false_neg` ranges over failed commits, failed
+initialisations and a crash after every step of the initialiser; a crash inside `PruneUpto` leaves a
+`prune k'` state (every batch carries the number-keyed deletes: harness tie), a crash inside `Store`
+/ `RevertHead` is a failed commit (one batch).
 -/
 namespace Juno.C09.Props
 open Juno.C09
 
-/-! ## Filter semantics -/
+/-! ## Filter semantics and the specification -/
 
-/-- Filter semantics of `MatchesEventKeys`: the event has at least as many keys as the filter has
-positions and every position is unconstrained or holds one of its alternatives. (juno requires the
-length also when the trailing positions are unconstrained; see notes/C09.md.) -/
+/-- `MatchesEventKeys` against the Starknet API text ("per key (by position), designate the possible
+values to be matched … empty array designates 'any' value"): the event has at least as many keys as
+the filter has positions and every position is unconstrained or holds one of its alternatives. The
+length requirement for TRAILING unconstrained positions is juno's reading of that text (an event
+with fewer keys has no key at that position to be "any" of); it is listed under `assumptions`. -/
 theorem matchesKeys_spec (fk : List (List Nat)) (ek : List Nat) :
     matchesKeys fk ek = true ↔
       ∃ h : fk.length ≤ ek.length, ∀ i (hi : i < fk.length), fk[i] = [] ∨ ek[i]'(by omega) ∈ fk[i] := by
@@ -30,8 +48,6 @@ theorem matchesKeys_spec (fk : List (List Nat)) (ek : List Nat) :
     have h' : fk.length ≤ ek.length := by omega
     rw [matchKeysGo_spec fk ek h']
     exact ⟨fun x => ⟨h', x⟩, fun ⟨_, x⟩ => x⟩
-
-/-! ## The specification -/
 
 /-- What the naive scan returns: exactly the events `chain[block].txs[tx][idx]` with `block` in
 the range that match the filter — each carrying its block / transaction / event position. -/
@@ -46,144 +62,62 @@ theorem naive_in_chain_order (f : Filter) (chain : List Block) (lo hi : Nat) :
     (naive f chain lo hi).Pairwise Emitted.lt :=
   naive_sorted f chain lo hi
 
-/-! ## The index has no false negatives -/
+/-! ## The index has no false negatives — over histories with faults and crash points -/
 
-/-- What a query needs from the index ("no false negatives"): for every window that holds a block
-of the chain, the structure the iterator will consult (the running filter for its own window,
-otherwise a cache entry or the persisted window) exists and has, for every block of the window,
-all items of the block's header bloom; and header blooms cover the events of their blocks. -/
-def NoFalseNeg (cfg : Cfg) (n : Node) : Prop :=
-  ChainWF n.chain ∧ Servable cfg n (n.chain.length - 1) ∧ CacheGood cfg n n.cache ∧ n.floor ≤ n.chain.length - 1
-
-/-- `index_no_false_neg` for every variant of the code, with the hypotheses that the code as it
-is needs (`HistOK`: besides well-formed stored blocks, `RevertGuard` at every revert). -/
-theorem index_no_false_neg_guarded (cfg : Cfg) (hW : 1 ≤ cfg.W) (ops : List Op)
-    (hok : HistOK cfg Node.init ops) (hne : (run cfg Node.init ops).chain ≠ []) :
-    NoFalseNeg cfg (run cfg Node.init ops) := by
-  have hinv := run_inv cfg hW ops Node.init (inv_init cfg hW) hok
-  have hlen : 1 ≤ (run cfg Node.init ops).chain.length := by
-    cases hc : (run cfg Node.init ops).chain with
-    | nil => exact absurd hc hne
-    | cons _ _ => simp
-  have := inv_servable cfg hW _ hinv ((run cfg Node.init ops).chain.length - 1) (by omega)
-  exact ⟨hinv.wf, this.1, this.2, by rcases hinv.floor_lt with h | h <;> omega⟩
-
-/-- The repaired code: all three repairs in. -/
-def Repaired (cfg : Cfg) : Prop := cfg.fixCache = true ∧ cfg.fixSnap = true ∧ cfg.fixPersist = true
-
-/-- The only hypotheses on a history of the repaired code: every stored block's header bloom
-covers the block's events (what `core.EventsBloom` computes: the superset assumption on bloom
-filters, checked on the real blooms by the harness), heights fit `uint64`, and a pruning node is
-not reorganised below its retention floor. -/
-def StoresOK (cfg : Cfg) : Node → List Op → Prop
-  | _, [] => True
-  | n, .store blk :: ops =>
-      ((∀ it ∈ blk.items, it ∈ blk.bloom) ∧ n.chain.length + 1 < 2 ^ 64) ∧ StoresOK cfg (step cfg n (.store blk)) ops
-  | n, .revert :: ops => RevertAboveFloor n ∧ StoresOK cfg (step cfg n .revert) ops
-  | n, op :: ops => StoresOK cfg (step cfg n op) ops
-
-/-- Executable form of `StoresOK` (for the concrete histories below). -/
-def storesOKb (cfg : Cfg) : Node → List Op → Bool
-  | _, [] => true
-  | n, .store blk :: ops =>
-      (blk.items.all (fun it => blk.bloom.contains it) && decide (n.chain.length + 1 < 2 ^ 64)) &&
-        storesOKb cfg (step cfg n (.store blk)) ops
-  | n, .revert :: ops =>
-      (decide (n.floor = 0) || decide (n.floor + 1 < n.chain.length)) && storesOKb cfg (step cfg n .revert) ops
-  | n, .snap :: ops => storesOKb cfg (step cfg n .snap) ops
-  | n, .restart :: ops => storesOKb cfg (step cfg n .restart) ops
-  | n, .query f a b t c l :: ops => storesOKb cfg (step cfg n (.query f a b t c l)) ops
-  | n, .prune k :: ops => storesOKb cfg (step cfg n (.prune k)) ops
-
-theorem storesOK_of_b (cfg : Cfg) (ops : List Op) : ∀ n, storesOKb cfg n ops = true → StoresOK cfg n ops := by
-  induction ops with
-  | nil => intro n _; trivial
-  | cons op ops ih =>
-    intro n h
-    cases op with
-    | store blk =>
-      simp only [storesOKb, Bool.and_eq_true, List.all_eq_true, decide_eq_true_eq, List.contains_iff_mem] at h
-      exact ⟨⟨h.1.1, h.1.2⟩, ih _ h.2⟩
-    | revert =>
-      simp only [storesOKb, Bool.and_eq_true, Bool.or_eq_true, decide_eq_true_eq] at h
-      exact ⟨h.1, ih _ h.2⟩
-    | snap => exact ih _ h
-    | restart => exact ih _ h
-    | query f a b t c l => exact ih _ h
-    | prune k => exact ih _ h
-
-theorem histOK_of_repaired (cfg : Cfg) (hr : Repaired cfg) (ops : List Op) :
-    ∀ n, StoresOK cfg n ops → HistOK cfg n ops := by
-  induction ops with
-  | nil => intro n _; trivial
-  | cons op ops ih =>
-    intro n h
-    cases op with
-    | store blk => exact ⟨h.1, ih _ h.2⟩
-    | revert => exact ⟨⟨⟨Or.inl hr.1, Or.inl hr.2.1, Or.inl hr.2.2⟩, h.1⟩, ih _ h.2⟩
-    | snap => exact ⟨trivial, ih _ h⟩
-    | restart => exact ⟨trivial, ih _ h⟩
-    | query f a b t c l => exact ⟨trivial, ih _ h⟩
-    | prune k => exact ⟨trivial, ih _ h⟩
-
-/-- **index_no_false_neg** (full strength, for the repaired code): after EVERY history of store /
-revert (any depth, across window boundaries, after queries warmed the cache) / snapshot write /
-graceful and ungraceful restart / query, the index has no false negatives. For every window size. -/
+/-- **index_no_false_neg.** After EVERY history of store / revert (any depth, across window
+boundaries, after queries warmed the cache) / snapshot write / graceful and ungraceful restart /
+query / prune / failed Store commit / failed RevertHead commit / failed lazy initialisation / crash
+after any number of steps inside the initialiser: whenever the running filter is initialised
+(always, except between a failed initialisation and the next write or restart) the index has no
+false negatives; the database part of the invariant holds without exception. For every window size. -/
 theorem index_no_false_neg (cfg : Cfg) (hW : 1 ≤ cfg.W) (hr : Repaired cfg) (ops : List Op)
-    (hok : StoresOK cfg Node.init ops) (hne : (run cfg Node.init ops).chain ≠ []) :
-    NoFalseNeg cfg (run cfg Node.init ops) :=
-  index_no_false_neg_guarded cfg hW ops (histOK_of_repaired cfg hr ops _ hok) hne
+    (hok : StoresOK cfg Node.init ops) :
+    let n := run cfg Node.init ops
+    DBInv cfg n ∧ (n.initErr = none → n.chain ≠ [] → NoFalseNeg cfg n) := by
+  intro n
+  have hw := weak_after_history cfg hW ops (histOK_of_repaired cfg hr ops _ hok)
+  exact ⟨hw.1, fun h1 h2 => noFalseNeg_of_inv cfg hW n (hw.2 h1) h2⟩
 
-/-- No operation of an admissible history of the repaired code fails: `Store` always finds the
-block inside the running window, `RevertHead` always finds the window it re-opens, the
-initialiser always succeeds. -/
+/-- The only way the running filter is ever uninitialised is the injected fault: without
+`restartFault` in the history it is initialised and every Store / RevertHead / snapshot write /
+restart succeeds. -/
 theorem ops_do_not_fail (cfg : Cfg) (hW : 1 ≤ cfg.W) (hr : Repaired cfg) (ops : List Op)
     (hok : StoresOK cfg Node.init ops) :
     let n := run cfg Node.init ops
+    n.initErr = none →
     (∀ blk, (∀ it ∈ blk.items, it ∈ blk.bloom) → n.chain.length + 1 < 2 ^ 64 → (store cfg n blk).2 = none) ∧
     (n.chain ≠ [] → RevertAboveFloor n → (revert cfg n).2 = none) ∧
-    (restart cfg n).2 = none := by
-  intro n
-  have hinv := run_inv cfg hW ops Node.init (inv_init cfg hW) (histOK_of_repaired cfg hr ops _ hok)
-  have := step_no_error cfg hW n hinv
+    (restart cfg n).2 = none ∧ (snap n).2 = none := by
+  intro n hlive
+  have hw := weak_after_history cfg hW ops (histOK_of_repaired cfg hr ops _ hok)
+  have := step_no_error cfg hW n (hw.2 hlive)
   exact ⟨fun blk h1 h2 => this.1 blk ⟨h1, h2⟩,
-    fun hne hfl => this.2.1 hne ⟨⟨Or.inl hr.1, Or.inl hr.2.1, Or.inl hr.2.2⟩, hfl⟩, this.2.2⟩
+    fun hne hfl => this.2.1 hne ⟨⟨Or.inl hr.1, Or.inl hr.2.1, Or.inl hr.2.2⟩, hfl⟩, this.2.2.1, this.2.2.2⟩
 
-/-
-The code BEFORE the three repairs (commits 6609698, 84d7a3b, 702b167; all `fix…` flags false).
-The full-strength statement was false for it — the three witnesses below are kept as regression
-documentation (the harness probes the real code and reports the violation again, under its own
-signature, should one of the defects return):
+/-- After a failed initialisation the next Store, RevertHead or restart re-arms the initialiser
+(3373c0b) and — the database being sound — it succeeds: the full invariant is back. -/
+theorem failed_init_rearmed_by_write (cfg : Cfg) (hW : 1 ≤ cfg.W) (hr : Repaired cfg) (ops : List Op)
+    (hok : StoresOK cfg Node.init ops) (blk : Block) :
+    let n := run cfg Node.init ops
+    n.initErr ≠ none →
+    (store cfg n blk).1.initErr = none ∧ (revert cfg n).1.initErr = none ∧ (restart cfg n).1.initErr = none := by
+  intro n hbad
+  have hw := weak_after_history cfg hW ops (histOK_of_repaired cfg hr ops _ hok)
+  cases hi : n.initErr with
+  | none => exact absurd hi hbad
+  | some e =>
+    have h1 : (store cfg n blk).1 = reinit cfg n := by simp [store, hi]
+    have h2 : (revert cfg n).1 = reinit cfg n := by
+      unfold revert; simp only [hi]; split <;> (try rfl); split <;> rfl
+    rw [h1, h2]
+    exact ⟨(reinit_inv' cfg hW n hw.1).live, (reinit_inv' cfg hW n hw.1).live, (restart_inv' cfg hW n hw.1).2.live⟩
 
-  theorem index_no_false_neg_asis (cfg) (hW : 1 ≤ cfg.W) (ops) (hok : StoresOK cfg Node.init ops) … :
-      NoFalseNeg cfg (run cfg Node.init ops)
-
-What held for that code: `index_no_false_neg_before_repairs` — the invariant along every history in
-which each revert happens in a state where (a) the cache holds no entry for a window the revert
-re-opens, (b) there is no persisted snapshot at or above the reverted block, (c) the revert does not
-re-open a completed window (`RevertGuard`); in particular along every reorg-free history.
--/
-theorem index_no_false_neg_before_repairs (W cap : Nat) (hW : 1 ≤ W) (ops : List Op)
-    (hok : HistOK ⟨W, cap, false, false, false⟩ Node.init ops)
-    (hne : (run ⟨W, cap, false, false, false⟩ Node.init ops).chain ≠ []) :
-    NoFalseNeg ⟨W, cap, false, false, false⟩ (run ⟨W, cap, false, false, false⟩ Node.init ops) :=
-  index_no_false_neg_guarded _ hW ops hok hne
-
-/-- Reorg-free histories of the code as it is satisfy the hypotheses of the partial theorem. -/
-theorem histOK_of_no_revert (cfg : Cfg) (ops : List Op) (hnr : ∀ op ∈ ops, op matches .revert → False) :
-    ∀ n, StoresOK cfg n ops → HistOK cfg n ops := by
-  induction ops with
-  | nil => intro n _; trivial
-  | cons op ops ih =>
-    intro n h
-    have ih' := ih (fun o ho => hnr o (List.mem_cons_of_mem _ ho))
-    cases op with
-    | store blk => exact ⟨h.1, ih' _ h.2⟩
-    | revert => exact (hnr .revert (by simp) rfl).elim
-    | snap => exact ⟨trivial, ih' _ h⟩
-    | restart => exact ⟨trivial, ih' _ h⟩
-    | query f a b t c l => exact ⟨trivial, ih' _ h⟩
-    | prune k => exact ⟨trivial, ih' _ h⟩
+/-- While the initialisation error is remembered, a query that needs the index fails with that
+error and changes nothing: never a partial answer. (That it KEEPS failing until the next write is
+the defect recorded below.) -/
+theorem uninitialised_filter_refuses (cfg : Cfg) (n : Node) (w : Nat) (cache : WinMap) (e : Err) (h : n.initErr = some e) :
+    loadWindow cfg n cache w = .error e := by
+  simp [loadWindow, h]
 
 /-! ## Paging -/
 
@@ -245,7 +179,7 @@ theorem token_progress (cfg : Cfg) (hW : 1 ≤ cfg.W) (n : Node) (f : Filter) (f
   | ok evs t =>
     simp only [WinPost, List.nil_append, List.length_nil]
     intro hpost
-    refine ⟨evs, t, rfl, ?_, ⟨hwf, ⟨hs.running, hs.persisted⟩, hcg, hfh⟩, ?_⟩
+    refine ⟨evs, t, rfl, ?_, ⟨hwf, ⟨hs.live, hs.running, hs.persisted⟩, hcg, hfh⟩, ?_⟩
     · rcases hpost with ⟨_, _, h⟩ | ⟨_, _, _, _, _, _, h, _⟩ <;> exact h
     · rcases hpost with ⟨ht, hA, _⟩ | ⟨h1, h2, X, hX, hXw, hv', _, hp⟩
       · exact Or.inl ⟨ht, hA⟩
@@ -266,35 +200,52 @@ theorem token_progress (cfg : Cfg) (hW : 1 ≤ cfg.W) (n : Node) (f : Filter) (f
           · exact Or.inr h
           · exact Or.inl (h (by omega)).1
 
-/-- **paging_complete with pre-confirmed blocks**: when the query range goes above the head and
-the node holds pre-confirmed blocks `pre` (oldest first, on top of the head, each with a header
-bloom covering its events), following the tokens returns the naive scan of the canonical chain
-followed by the pre-confirmed blocks; a lower bound `pre_confirmed` (the sentinel) means the newest
-pre-confirmed block (`loOf`), an upper bound `pre_confirmed` means all of them. -/
+/-- When the range ends at a canonical block the pre-confirmed chain plays no role: the page is
+the page of the plain query (so `paging_complete`, `page_sound`, `pruned_start_rejected` apply). -/
+theorem preconfirmed_ignored_below_head (cfg : Cfg) (n : Node) (f : Filter) (fromB toB : Nat) (tok : Option Token)
+    (chunk limit base : Nat) (pre : List Block) (h1 : toB ≠ sentinel) (h2 : toB < n.chain.length) :
+    queryPre cfg n f fromB toB tok chunk limit base pre = query cfg n f fromB toB tok chunk limit := by
+  simp only [queryPre, query, eventsPre_below_head cfg n f fromB toB tok chunk limit base pre h1 h2]
+
+/-- **paging_complete with pre-confirmed blocks**, for a pre-confirmed chain `pre` (oldest first,
+consecutive numbers: `preconfirmed.NewChain` refuses anything else) that was built on canonical
+block `base ≤ head` — `headAndPreConfirmed` derives `base` from the chain, it need not be the head
+of the database — and a range that reaches above the head (or the `pre_confirmed` tag): following
+the tokens returns the naive scan of the canonical blocks UP TO `base` followed by the
+pre-confirmed blocks (for `base < head` the blocks `base+1 … head` are served from their
+pre-confirmed copies, as the code intends). A lower bound `pre_confirmed` means the newest
+pre-confirmed block (`loOf`). -/
 theorem paging_complete_preconfirmed (cfg : Cfg) (hW : 1 ≤ cfg.W) (n : Node) (f : Filter)
-    (fromB toB chunk limit : Nat) (hchunk : 1 ≤ chunk) (hne : n.chain ≠ []) (hnf : NoFalseNeg cfg n)
-    (hfl : n.floor ≤ fromB)
+    (fromB toB chunk limit base : Nat) (hchunk : 1 ≤ chunk) (hne : n.chain ≠ []) (hnf : NoFalseNeg cfg n)
+    (hbase : base ≤ n.chain.length - 1)
+    (hto : toB = sentinel ∨ n.chain.length - 1 < toB)
+    (hfl : fromB ≤ base → n.floor ≤ fromB)
     (pre : List Block) (hpre : pre ≠ []) (hpwf : ∀ blk ∈ pre, ∀ it ∈ blk.items, it ∈ blk.bloom)
     (hfit : n.chain.length - 1 + pre.length < sentinel) (fuel : Nat)
-    (hfuel : (naive f (n.chain ++ pre) (loOf fromB none (n.chain.length - 1 + pre.length))
-        (min toB (n.chain.length - 1 + pre.length))).length + (n.chain.length + pre.length) < fuel) :
-    collectPre cfg f fromB toB chunk limit (n.chain.length - 1) pre fuel n none =
-      some (naive f (n.chain ++ pre) (loOf fromB none (n.chain.length - 1 + pre.length))
-        (min toB (n.chain.length - 1 + pre.length))) := by
+    (hfuel : (naive f (n.chain.take (base + 1) ++ pre) (loOf fromB none (base + pre.length))
+        (min toB (base + pre.length))).length + (base + 1 + pre.length) < fuel) :
+    collectPre cfg f fromB toB chunk limit base pre fuel n none =
+      some (naive f (n.chain.take (base + 1) ++ pre) (loOf fromB none (base + pre.length))
+        (min toB (base + pre.length))) := by
   obtain ⟨hwf, hs, hc, hfh⟩ := hnf
   have hlen : n.chain.length = (n.chain.length - 1) + 1 := by
     cases hc' : n.chain with
     | nil => exact absurd hc' hne
     | cons _ _ => simp
-  have := collectPre_spec cfg f fromB toB chunk limit (n.chain.length - 1) pre hW hchunk hpre hfit hpwf fuel n none
-    hlen hwf hs hc hfl hfh (Or.inl rfl)
+  have hB0 : (toB != sentinel && decide (toB ≤ n.chain.length - 1)) = false := by
+    simp only [Bool.and_eq_false_iff, bne_eq_false_iff_eq, decide_eq_false_iff_not]
+    rcases hto with h | h
+    · exact Or.inl h
+    · exact Or.inr (by omega)
+  have := collectPre_spec cfg f fromB toB chunk limit base (n.chain.length - 1) pre hW hchunk hbase hB0 hpre hfit hpwf fuel n none
+    hlen hwf (hs.mono hbase) hc hfl (Or.inl rfl)
   simp only [skipOf, wantN_zero] at this
   rw [naive_eq] at hfuel ⊢
-  generalize (loOf fromB none (n.chain.length - 1 + pre.length)) = lo at this hfuel ⊢
-  have h1 := Nat.min_le_right toB (n.chain.length - 1 + pre.length)
-  generalize min toB (n.chain.length - 1 + pre.length) = hi at this hfuel h1 ⊢
+  generalize (loOf fromB none (base + pre.length)) = lo at this hfuel ⊢
+  have h1 := Nat.min_le_right toB (base + pre.length)
+  generalize min toB (base + pre.length) = hi at this hfuel h1 ⊢
   apply this
-  generalize (List.flatMap (blkSel f (n.chain ++ pre)) (List.range' lo (hi + 1 - lo))).length = k at hfuel ⊢
+  generalize (List.flatMap (blkSel f (n.chain.take (base + 1) ++ pre)) (List.range' lo (hi + 1 - lo))).length = k at hfuel ⊢
   omega
 
 /-- **page_sound** — no hypothesis on the node at all (any index state, any cache content, any
@@ -313,19 +264,66 @@ theorem page_sound (cfg : Cfg) (hW : 1 ≤ cfg.W) (n : Node) (f : Filter) (fromB
   obtain ⟨Y, hY, hYs⟩ := this
   simpa [hY] using hYs
 
+/-- **page_sound with pre-confirmed blocks**: any index state, any token, a pre-confirmed chain on
+an existing canonical block: a page that does not fail is a sub-list of the naive scan of the
+canonical blocks up to `base` followed by the pre-confirmed blocks — only matching events, true
+tags, chain order, none twice. -/
+theorem page_sound_preconfirmed (cfg : Cfg) (hW : 1 ≤ cfg.W) (n : Node) (f : Filter) (fromB toB chunk limit base : Nat)
+    (tok : Option Token) (pre : List Block) (hpre : pre ≠ []) (hbase : base < n.chain.length)
+    (hfit : n.chain.length < sentinel)
+    (hto : toB = sentinel ∨ n.chain.length - 1 < toB) (evs : List Emitted) (t : Token)
+    (h : (queryPre cfg n f fromB toB tok chunk limit base pre).2 = .ok evs t) :
+    evs.Sublist (naive f (n.chain.take (base + 1) ++ pre) (min (startOf fromB tok) (base + 1)) (base + pre.length)) := by
+  have hB0 : (toB != sentinel && decide (toB ≤ n.chain.length - 1)) = false := by
+    simp only [Bool.and_eq_false_iff, bne_eq_false_iff_eq, decide_eq_false_iff_not]
+    rcases hto with h | h
+    · exact Or.inl h
+    · exact Or.inr (by omega)
+  have hnb : ¬ toB ≤ base := by
+    rcases hto with h' | h'
+    · rw [h']; omega
+    · omega
+  have := eventsPre_sound cfg n f fromB toB tok chunk limit base pre hW hpre hbase hB0 hnb
+  simp only [queryPre] at h
+  rw [h] at this
+  obtain ⟨Y, hY, hYs⟩ := this
+  simpa [hY] using hYs
+
 /-! ## The property, end to end -/
 
-/-- **C09 for the repaired code**: after every history, every query paged to the end returns
-exactly the matching events of the canonical chain in the range, in chain order. -/
+/-- **C09**: after every admissible history (faults and crash points included) on a node whose
+running filter is initialised, every query over a range that starts in the retained part, paged to
+the end with any chunk size ≥ 1 and any scan limit, returns exactly the matching events of the
+canonical chain in the range, in chain order, each with its positions. The chain is the one at the
+time of the query (pages of one query are not interleaved with writes). -/
 theorem events_exact (cfg : Cfg) (hW : 1 ≤ cfg.W) (hr : Repaired cfg) (ops : List Op)
     (hok : StoresOK cfg Node.init ops) (hne : (run cfg Node.init ops).chain ≠ [])
+    (hlive : (run cfg Node.init ops).initErr = none)
     (f : Filter) (fromB toB chunk limit : Nat) (hchunk : 1 ≤ chunk) :
     let n := run cfg Node.init ops
     n.floor ≤ fromB →
     ∀ fuel, (naive f n.chain fromB (min toB (n.chain.length - 1))).length + n.chain.length < fuel →
       collect cfg f fromB toB chunk limit fuel n none = some (naive f n.chain fromB (min toB (n.chain.length - 1))) := by
   intro n hfl fuel hfuel
-  exact paging_complete cfg hW n f fromB toB chunk limit hchunk hne (index_no_false_neg cfg hW hr ops hok hne) hfl fuel hfuel
+  exact paging_complete cfg hW n f fromB toB chunk limit hchunk hne
+    ((index_no_false_neg cfg hW hr ops hok).2 hlive hne) hfl fuel hfuel
+
+/-- … and with pre-confirmed blocks on top of canonical block `base ≤ head`. -/
+theorem events_exact_preconfirmed (cfg : Cfg) (hW : 1 ≤ cfg.W) (hr : Repaired cfg) (ops : List Op)
+    (hok : StoresOK cfg Node.init ops) (hne : (run cfg Node.init ops).chain ≠ [])
+    (hlive : (run cfg Node.init ops).initErr = none)
+    (f : Filter) (fromB toB chunk limit base : Nat) (hchunk : 1 ≤ chunk)
+    (pre : List Block) (hpre : pre ≠ []) (hpwf : ∀ blk ∈ pre, ∀ it ∈ blk.items, it ∈ blk.bloom) :
+    let n := run cfg Node.init ops
+    base ≤ n.chain.length - 1 → (toB = sentinel ∨ n.chain.length - 1 < toB) → (fromB ≤ base → n.floor ≤ fromB) →
+    n.chain.length - 1 + pre.length < sentinel →
+    ∀ fuel, (naive f (n.chain.take (base + 1) ++ pre) (loOf fromB none (base + pre.length))
+        (min toB (base + pre.length))).length + (base + 1 + pre.length) < fuel →
+      collectPre cfg f fromB toB chunk limit base pre fuel n none =
+        some (naive f (n.chain.take (base + 1) ++ pre) (loOf fromB none (base + pre.length)) (min toB (base + pre.length))) := by
+  intro n hbase hto hfl hfit fuel hfuel
+  exact paging_complete_preconfirmed cfg hW n f fromB toB chunk limit base hchunk hne
+    ((index_no_false_neg cfg hW hr ops hok).2 hlive hne) hbase hto hfl pre hpre hpwf hfit fuel hfuel
 
 /-- **Pruned ranges are refused, never answered in part**: a query (or a token) that starts at a
 canonical block below the retention floor fails with `pruned` and changes nothing. -/
@@ -340,50 +338,71 @@ theorem pruned_start_rejected (cfg : Cfg) (n : Node) (f : Filter) (fromB toB chu
       simp only [Bool.and_eq_true, decide_eq_true_eq]; omega
     simp [this]
 
-/-! ## The code as it is: three witnesses (window size 3, replayed at 8192 on the real code) -/
 
-def cfgAsIs : Cfg := ⟨3, 2, false, false, false⟩
+/-- … the same for a query that would continue into pre-confirmed blocks (the second copy of the
+retention check, against the block the pre-confirmed chain was built on). -/
+theorem pruned_start_rejected_preconfirmed (cfg : Cfg) (n : Node) (f : Filter) (fromB toB chunk limit base : Nat)
+    (tok : Option Token) (pre : List Block) (hpre : pre ≠ []) (hne : n.chain ≠ [])
+    (hto : toB = sentinel ∨ n.chain.length - 1 < toB)
+    (h1 : startOf fromB tok ≤ base) (h2 : startOf fromB tok < n.floor) :
+    queryPre cfg n f fromB toB tok chunk limit base pre = (n, .err .pruned) := by
+  simp only [queryPre, eventsPre_eq]
+  have hemp : pre.isEmpty = false := by cases pre <;> simp_all
+  cases hl : n.chain.length with
+  | zero => simp_all
+  | succ height =>
+    have hB0 : (toB != sentinel && decide (toB ≤ height)) = false := by
+      simp only [Bool.and_eq_false_iff, bne_eq_false_iff_eq, decide_eq_false_iff_not]
+      rcases hto with h | h
+      · exact Or.inl h
+      · exact Or.inr (by omega)
+    have : (decide (startOf fromB tok ≤ base) && decide (startOf fromB tok < n.floor)) = true := by
+      simp only [Bool.and_eq_true, decide_eq_true_eq]; exact ⟨h1, h2⟩
+    simp [hemp, hB0, this]
+
+/-! ## Open finding: a failed lazy initialisation is sticky for queries -/
+
+/-
+Full-strength statement (what one wants): after a TRANSIENT failure of the lazy initialisation the
+next query succeeds (the database is intact). FALSE for the code in /repo: `ensureInit` remembers
+the error (`sync.Once`), only a failed Store / RevertHead (`Reset`, 3373c0b) or a restart re-arms
+the initialiser; event queries do not. `events_exact` therefore carries the hypothesis
+`initErr = none`. The repair is owned by C05 (its finding L16); C09 records the query side.
+-/
+def cfgRepaired : Cfg := ⟨3, 2, true, true, true⟩
 def blkE : Block := ⟨[], []⟩
 def blkB : Block := ⟨[[⟨11, [7]⟩]], [.addr 11, .key 0 7]⟩
 def fB : Filter := ⟨[11], []⟩
 
-/-- §7 L2 — the cache is not purged on revert: blocks 0..3; a query caches window [0,2]; revert 2;
-block 2' carries an event of address 11, then 3'; the query for address 11 over [0,3] returns
-nothing, although block 2' has a matching event. -/
-theorem asis_false_negative_stale_cache :
-    let ops : List Op := [.store blkE, .store blkE, .store blkE, .store blkE, .query fB 0 3 none 5 0,
-      .revert, .revert, .store blkB, .store blkE]
-    storesOKb cfgAsIs Node.init ops = true ∧
-    (query cfgAsIs (run cfgAsIs Node.init ops) fB 0 3 none 5 0).2 = .ok [] Token.none ∧
-    naive fB (run cfgAsIs Node.init ops).chain 0 3 = [⟨2, 0, 0, ⟨11, [7]⟩⟩] := by
-  decide
+/-- `_partial`: with the hypothesis that no initialisation error is remembered — `events_exact`. -/
+theorem events_exact_after_faults_partial (cfg : Cfg) (hW : 1 ≤ cfg.W) (hr : Repaired cfg) (ops : List Op)
+    (hok : StoresOK cfg Node.init ops) (hne : (run cfg Node.init ops).chain ≠ [])
+    (hlive : (run cfg Node.init ops).initErr = none)
+    (f : Filter) (fromB toB chunk limit : Nat) (hchunk : 1 ≤ chunk) (hfl : (run cfg Node.init ops).floor ≤ fromB)
+    (fuel : Nat)
+    (hfuel : (naive f (run cfg Node.init ops).chain fromB (min toB ((run cfg Node.init ops).chain.length - 1))).length +
+      (run cfg Node.init ops).chain.length < fuel) :
+    collect cfg f fromB toB chunk limit fuel (run cfg Node.init ops) none =
+      some (naive f (run cfg Node.init ops).chain fromB (min toB ((run cfg Node.init ops).chain.length - 1))) :=
+  events_exact cfg hW hr ops hok hne hlive f fromB toB chunk limit hchunk hfl fuel hfuel
 
-/-- §7 L3 — the snapshot is never invalidated: 2 blocks, snapshot + restart, revert 1, block 1'
-carries the event, ungraceful restart: the initialiser trusts the snapshot (`next == head + 1`). -/
-theorem asis_false_negative_stale_snapshot :
-    let ops : List Op := [.store blkE, .store blkE, .snap, .restart, .revert, .store blkB, .restart]
-    storesOKb cfgAsIs Node.init ops = true ∧
-    (query cfgAsIs (run cfgAsIs Node.init ops) fB 0 1 none 5 0).2 = .ok [] Token.none ∧
-    naive fB (run cfgAsIs Node.init ops).chain 0 1 = [⟨1, 0, 0, ⟨11, [7]⟩⟩] := by
-  decide
-
-/-- L15 — `onReorg` re-opens window [0,2] but leaves its persisted copy: blocks 0..3, revert 3,
-block 1' carries the event, ungraceful restart: `rebuildRunningEventFilter` takes the stale
-persisted window as complete; the query misses block 1', and storing block 2 then fails. -/
-theorem asis_false_negative_stale_persisted :
-    let ops : List Op := [.store blkE, .store blkE, .store blkE, .store blkE, .revert, .revert, .revert,
-      .store blkB, .restart]
-    storesOKb cfgAsIs Node.init ops = true ∧
-    (query cfgAsIs (run cfgAsIs Node.init ops) fB 0 1 none 5 0).2 = .ok [] Token.none ∧
-    naive fB (run cfgAsIs Node.init ops).chain 0 1 = [⟨1, 0, 0, ⟨11, [7]⟩⟩] ∧
-    (store cfgAsIs (run cfgAsIs Node.init ops) blkE).2 = some .range := by
+/-- Negation witness: two blocks, a restart whose initialisation hits a transient error; the
+database is intact and holds a matching event, yet the query fails, and fails again; a Store attempt
+(which itself fails once) re-arms the initialiser and the same query is then exact. -/
+theorem query_fails_after_transient_init_error :
+    let ops : List Op := [.store blkE, .store blkB, .restartFault]
+    let n := run cfgRepaired Node.init ops
+    storesOKb cfgRepaired Node.init ops = true ∧
+    naive fB n.chain 0 1 = [⟨1, 0, 0, ⟨11, [7]⟩⟩] ∧
+    (query cfgRepaired n fB 0 1 none 5 0).2 = .err .io ∧
+    (query cfgRepaired (query cfgRepaired n fB 0 1 none 5 0).1 fB 0 1 none 5 0).2 = .err .io ∧
+    (store cfgRepaired n blkE).2 = some .io ∧
+    (query cfgRepaired (store cfgRepaired n blkE).1 fB 0 1 none 5 0).2 = .ok [⟨1, 0, 0, ⟨11, [7]⟩⟩] Token.none := by
   decide
 
 /-! ## Non-vacuity -/
 
-def cfgRepaired : Cfg := ⟨3, 2, true, true, true⟩
-
--- the three histories above are admissible for the repaired code and there the queries are exact
+-- reorg across a window boundary after the cache was warmed: exact
 example :
     let ops : List Op := [.store blkE, .store blkE, .store blkE, .store blkE, .query fB 0 3 none 5 0,
       .revert, .revert, .store blkB, .store blkE]
@@ -391,11 +410,13 @@ example :
     (query cfgRepaired (run cfgRepaired Node.init ops) fB 0 3 none 5 0).2 = .ok [⟨2, 0, 0, ⟨11, [7]⟩⟩] Token.none := by
   decide
 
+-- failed commits and a crash inside the initialiser in the history
 example :
-    let ops : List Op := [.store blkE, .store blkE, .store blkE, .store blkE, .revert, .revert, .revert,
-      .store blkB, .restart]
-    (query cfgRepaired (run cfgRepaired Node.init ops) fB 0 1 none 5 0).2 = .ok [⟨1, 0, 0, ⟨11, [7]⟩⟩] Token.none ∧
-    (store cfgRepaired (run cfgRepaired Node.init ops) blkE).2 = none := by
+    let ops : List Op := [.store blkE, .store blkE, .storeFail blkB, .store blkB, .store blkE, .revertFail,
+      .snap, .store blkB, .store blkE, .restartCrash 1, .revert, .storeFail blkE, .store blkB]
+    let n := run cfgRepaired Node.init ops
+    storesOKb cfgRepaired Node.init ops = true ∧ n.initErr = none ∧ n.chain.length = 6 ∧
+    (query cfgRepaired n fB 0 9 none 5 0).2 = .ok [⟨2, 0, 0, ⟨11, [7]⟩⟩, ⟨4, 0, 0, ⟨11, [7]⟩⟩, ⟨5, 0, 0, ⟨11, [7]⟩⟩] Token.none := by
   decide
 
 -- paging with chunk size 1 and scan limit 1 over a chain with two matching events in one block
@@ -407,8 +428,7 @@ example :
     collect cfgRepaired fB 0 2 1 1 10 n none = some (naive fB n.chain 0 2) := by
   decide
 
--- a pruning node: 7 blocks, window size 3, the floor moves to block 4 (window [0,2] is dropped), restart with
--- the pruning-aware initialiser; queries from the floor are exact, queries from below it are refused
+-- a pruning node: floor in window 1, restart with the pruning-aware initialiser
 example :
     let blkA : Block := ⟨[[⟨11, [7]⟩]], [.addr 11, .key 0 7]⟩
     let ops : List Op := [.store blkA, .store blkE, .store blkE, .store blkE, .store blkA, .store blkA, .store blkE,
@@ -420,14 +440,15 @@ example :
     (query cfgRepaired n fB 9 9 (some ⟨0, 1⟩) 5 0).2 = .err .pruned := by
   decide
 
--- a query into the pre-confirmed blocks, paged with chunk size 1
+-- pre-confirmed blocks on the head, and on the block below the head (base = head - 1)
 example :
     let n := run cfgRepaired Node.init [.store blkE, .store blkB]
     let pre : List Block := [blkB, blkE, blkB]
     (queryPre cfgRepaired n fB 0 sentinel none 1 0 1 pre).2 = .ok [⟨1, 0, 0, ⟨11, [7]⟩⟩] ⟨2, 0⟩ ∧
     collectPre cfgRepaired fB 0 sentinel 1 0 1 pre 10 n none = some (naive fB (n.chain ++ pre) 0 4) ∧
     collectPre cfgRepaired fB sentinel sentinel 1 0 1 pre 10 n none = some (naive fB (n.chain ++ pre) 4 4) ∧
-    naive fB (n.chain ++ pre) 0 4 = [⟨1, 0, 0, ⟨11, [7]⟩⟩, ⟨2, 0, 0, ⟨11, [7]⟩⟩, ⟨4, 0, 0, ⟨11, [7]⟩⟩] := by
+    collectPre cfgRepaired fB 0 sentinel 1 0 0 pre 10 n none = some (naive fB (n.chain.take 1 ++ pre) 0 3) ∧
+    naive fB (n.chain.take 1 ++ pre) 0 3 = [⟨1, 0, 0, ⟨11, [7]⟩⟩, ⟨3, 0, 0, ⟨11, [7]⟩⟩] := by
   decide
 
 end Juno.C09.Props
